@@ -274,6 +274,21 @@ func RunWorker(d Driver, tier string, seed uint64, w, nw int, maxRuns uint64, de
 				min, mres, mv, minimised = c, res, v, false
 				sum.Stats["minimisation_lost_violation"]++
 			}
+			// the minimised violation may turn out to be a known finding
+			knownAfterMin := false
+			for _, f := range findings.Findings {
+				if f.Status == "open" && active[f.ID] && f.Matches(mv) {
+					sum.Known[f.ID]++
+					knownAfterMin = true
+					break
+				}
+			}
+			if knownAfterMin {
+				if os.Getenv("VERIF_DEBUG") != "" {
+					fmt.Fprintf(os.Stderr, "debug: seed %d: original violation %v (%s) became known after minimisation %v\n", rs, v.Features, v.Detail, mv.Features)
+				}
+				continue
+			}
 			rp := &Replay{Property: mv.Property, Class: mv.Class, Detail: mv.Detail, Features: mv.Features, Digest: mres.Digest, Minimised: minimised, Case: min, Version: EngineVersion}
 			path, err := WriteReplay(filepath.Join(VerifDir(), "replays"), rp)
 			if err != nil {
